@@ -33,12 +33,12 @@ func init() {
 		modes: func(tier string, seed int64) []modeSpec {
 			n := 320
 			if tier == "thorough" {
-				n = 8000
+				n = 48000
 			}
 			return []modeSpec{
 				{name: "tree", n: n, perChild: n / 16, timeout: 20 * time.Minute},
 				{name: "tree-chaos", n: n, perChild: n / 16, timeout: 20 * time.Minute, env: []string{"VERIF_HOOK=chaos", "VERIF_HOOK_PROB=30", "VERIF_HOOK_MAXUS=50", "VERIF_HOOK_LOCKUS=400"}},
-				{name: "directed", n: 32, perChild: 8, timeout: 10 * time.Minute, env: []string{"VERIF_HOOK=chaos", "VERIF_HOOK_PROB=50", "VERIF_HOOK_MAXUS=50", "VERIF_HOOK_LOCKUS=400"}},
+				{name: "directed", n: 32 * (1 + 7*b2int(tier == "thorough")), perChild: 8, timeout: 10 * time.Minute, env: []string{"VERIF_HOOK=chaos", "VERIF_HOOK_PROB=50", "VERIF_HOOK_MAXUS=50", "VERIF_HOOK_LOCKUS=400"}},
 			}
 		},
 		run: func(c *caseCtx) caseResult {
@@ -49,6 +49,13 @@ func init() {
 		},
 		minDistinct: 30,
 	})
+}
+
+func b2int(b bool) int {
+	if b {
+		return 1
+	}
+	return 0
 }
 
 type tnode struct {
